@@ -2,7 +2,7 @@
 
 use crate::codec::{dec_value, enc_value};
 use crate::tlc::{Run, Tlc};
-use crate::util::{tool_error, Ctx};
+use crate::util::{tool_error, Ctx, Rng};
 use dmntk_feel::values::Value;
 use dmntk_feel::{Name, Scope};
 use serde_json::{json, Value as J};
@@ -30,6 +30,105 @@ fn param_names(f: &str) -> &'static [&'static str] {
     "sort" => &["list", "precedes"],
     _ => &[],
   }
+}
+
+
+// ---- seeded random argument tuples (longer strings and lists than the exhaustive pools of Gen_C08), in the case format
+// ---- of Gen_C08; Bif.tla is the oracle for them as for the enumerated ones
+
+fn rnd_num(rng: &mut Rng) -> J {
+  match rng.below(8) {
+    0 => json!({"k": "num", "m": rng.below(7) as i64 * 10, "e": -1}), // n.0: an integer value written with a fraction digit
+    1 => json!({"k": "num", "m": rng.below(40) as i64 - 20, "e": -1}),
+    _ => json!({"k": "num", "m": rng.below(12) as i64 - 3, "e": 0}),
+  }
+}
+
+fn rnd_str(rng: &mut Rng, max: u64) -> J {
+  let alphabet = [97u32, 98, 99, 32, 233, 223, 0x1D11E, 65, 46];
+  let n = rng.below(max + 1);
+  json!({"k": "str", "cp": (0..n).map(|_| *rng.pick(&alphabet)).collect::<Vec<_>>()})
+}
+
+fn rnd_item(rng: &mut Rng, depth: u32) -> J {
+  match rng.below(10) {
+    0 => json!({"k": "null"}),
+    1 | 2 => rnd_str(rng, 2),
+    3 if depth < 2 => rnd_list(rng, 3, depth + 1),
+    4 => json!({"k": "bool", "b": rng.chance(1, 2)}),
+    _ => rnd_num(rng),
+  }
+}
+
+fn rnd_list(rng: &mut Rng, max: u64, depth: u32) -> J {
+  let n = rng.below(max + 1);
+  json!({"k": "list", "items": (0..n).map(|_| rnd_item(rng, depth)).collect::<Vec<_>>()})
+}
+
+fn rnd_num_list(rng: &mut Rng, max: u64) -> J {
+  let n = rng.below(max + 1);
+  json!({"k": "list", "items": (0..n).map(|_| if rng.chance(1, 15) { json!({"k": "null"}) } else { rnd_num(rng) }).collect::<Vec<_>>()})
+}
+
+fn rnd_pos(rng: &mut Rng) -> J {
+  json!({"k": "num", "m": rng.below(23) as i64 - 11, "e": 0})
+}
+
+pub fn random_case(rng: &mut Rng) -> J {
+  let f = *rng.pick(&[
+    "substring", "substring", "string length", "contains", "starts with", "ends with", "substring before", "substring after", "count", "min", "max", "sum", "mean", "median", "mode", "all", "sublist", "sublist",
+    "append", "concatenate", "insert before", "remove", "reverse", "index of", "union", "distinct values", "flatten", "list contains", "sort", "not",
+  ]);
+  let args: Vec<J> = match f {
+    "substring" => {
+      if rng.chance(1, 2) {
+        vec![rnd_str(rng, 10), rnd_pos(rng)]
+      } else {
+        vec![rnd_str(rng, 10), rnd_pos(rng), json!({"k": "num", "m": rng.below(12) as i64, "e": 0})]
+      }
+    }
+    "string length" => vec![rnd_str(rng, 12)],
+    "contains" | "starts with" | "ends with" | "substring before" | "substring after" => {
+      // the second string is often a piece of the first
+      let a = rnd_str(rng, 10);
+      let cp: Vec<J> = a["cp"].as_array().cloned().unwrap_or_default();
+      let b = if !cp.is_empty() && rng.chance(2, 3) {
+        let i = rng.below(cp.len() as u64) as usize;
+        let j = i + 1 + rng.below((cp.len() - i) as u64).min(2) as usize;
+        json!({"k": "str", "cp": cp[i..j.min(cp.len())].to_vec()})
+      } else {
+        rnd_str(rng, 2)
+      };
+      vec![a, b]
+    }
+    "count" | "reverse" | "flatten" | "distinct values" => vec![rnd_list(rng, 8, 0)],
+    "min" | "max" | "sum" | "mean" | "median" | "mode" => vec![rnd_num_list(rng, 8)],
+    "all" => vec![json!({"k": "list", "items": (0..rng.below(6)).map(|_| if rng.chance(1, 6) { json!({"k": "null"}) } else { json!({"k": "bool", "b": rng.chance(2, 3)}) }).collect::<Vec<_>>()})],
+    "sublist" => {
+      if rng.chance(1, 2) {
+        vec![rnd_list(rng, 8, 0), rnd_pos(rng)]
+      } else {
+        vec![rnd_list(rng, 8, 0), rnd_pos(rng), json!({"k": "num", "m": rng.below(10) as i64, "e": 0})]
+      }
+    }
+    "append" => vec![rnd_list(rng, 6, 0), rnd_item(rng, 0)],
+    "concatenate" | "union" => vec![rnd_list(rng, 5, 0), rnd_list(rng, 5, 0)],
+    "insert before" => vec![rnd_list(rng, 6, 0), rnd_pos(rng), rnd_item(rng, 0)],
+    "remove" => vec![rnd_list(rng, 6, 0), rnd_pos(rng)],
+    "index of" | "list contains" => {
+      let l = rnd_list(rng, 8, 0);
+      let items = l["items"].as_array().cloned().unwrap_or_default();
+      let x = if !items.is_empty() && rng.chance(2, 3) { rng.pick(&items).clone() } else { rnd_item(rng, 0) };
+      vec![l, x]
+    }
+    "sort" => {
+      let l = if rng.chance(3, 4) { rnd_num_list(rng, 8) } else { json!({"k": "list", "items": (0..rng.below(7)).map(|_| rnd_str(rng, 3)).collect::<Vec<_>>()}) };
+      let cmp = *rng.pick(&["lt", "gt", "le", "ge"]);
+      return json!({"fn": "sort", "args": [l, {"k": "null"}], "cmp": cmp});
+    }
+    _ => vec![if rng.chance(1, 5) { json!({"k": "null"}) } else { json!({"k": "bool", "b": rng.chance(1, 2)}) }],
+  };
+  json!({"fn": f, "args": args})
 }
 
 fn eval(scope: &Scope, text: &str) -> J {
@@ -120,7 +219,12 @@ pub fn check(mut ctx: Ctx, replay: Option<J>) -> ! {
     for c in &cases {
       recs.push(run_case(c));
     }
-    let _ = quick;
+    let mut rng = Rng::new(ctx.seed);
+    let n_random = if quick { 4000 } else { 60000 };
+    for _ in 0..n_random {
+      recs.push(run_case(&random_case(&mut rng)));
+    }
+    ctx.cov("random_argument_tuples", json!(n_random));
     let mut bad = recs.iter().find(|r| r["fn"] == "string length" && r["pos"]["k"] == "num").cloned().unwrap_or_else(|| tool_error("no case"));
     bad["pos"]["m"] = json!(77);
     let out = tlc.judge("Trace_C08", "Trace_C08.cfg", &[bad], 1, 300, &[("RELAX_EMPTY_DOMAIN", "0")]);
@@ -149,7 +253,7 @@ pub fn check(mut ctx: Ctx, replay: Option<J>) -> ! {
   ctx.cov("distinct_nontrivial", json!(n - unspec));
   ctx.cov("unspecified_cases_accepted", json!(unspec));
   ctx.cov("exhaustive", json!(true));
-  ctx.cov("rule", json!("one case = (built-in function, argument tuple), invoked positionally and by parameter name; tuples enumerated by TLC: strings over ASCII / BMP / supplementary characters incl. empty, lists of length 0..3 with duplicates, nested lists and nulls, positions and lengths -5..5 incl. 0 and non-integers, wrong kinds and arities; non-trivial = Bif.tla assigns a definite value"));
+  ctx.cov("rule", json!("one case = (built-in function, argument tuple), invoked positionally and by parameter name; tuples enumerated by TLC: strings over ASCII / BMP / supplementary characters incl. empty, lists of length 0..3 with duplicates, nested lists and nulls, positions and lengths -5..5 incl. 0 and non-integers, wrong kinds and arities; plus seeded random tuples with strings up to 12 characters and lists up to 8 items (nested, nulls, equal numbers of different scale); non-trivial = Bif.tla assigns a definite value"));
   ctx.sample(json!({"text": recs[recs.len() / 2]["text"], "args": recs[recs.len() / 2]["args"]}));
   ctx.finish()
 }
